@@ -9,6 +9,7 @@ package main
 import (
 	"fmt"
 	"math/rand/v2"
+	"reflect"
 	"sort"
 	"strings"
 
@@ -167,7 +168,9 @@ func showSet(ms []RS) []string {
 // checkSingle checks all one-scope laws of s against the member list ms (model).
 func (c *ctx) checkSingle(s ociauth.Scope, how string, ms []RS, probes []RS, isMember func(RS) bool) {
 	run := c.run
-	w := func() map[string]any { return map[string]any{"construction": how, "set": showSet(ms), "string": s.String()} }
+	w := func() map[string]any {
+		return map[string]any{"construction": how, "set": showSet(ms), "string": s.String()}
+	}
 	want := sorted(ms)
 	if got := s.Len(); got != len(want) {
 		c.bad("len/"+how, fmt.Sprintf("Len()=%d, set has %d members", got, len(want)), w())
@@ -200,6 +203,25 @@ func (c *ctx) checkSingle(s ociauth.Scope, how string, ms []RS, probes []RS, isM
 		if n != k+1 {
 			c.bad("iter-stop/"+how, fmt.Sprintf("consumer declined at call %d but was called %d times", k+1, n), w())
 			break
+		}
+	}
+	// an iterator value may be run again (also after a pass that was cut short): every pass over
+	// the same value yields the whole set
+	if len(got) > 0 {
+		it := s.Iter()
+		cut := len(got) / 2
+		n := 0
+		it(func(RS) bool { n++; return n <= cut })
+		for pass := 2; pass <= 3; pass++ {
+			var again []RS
+			it(func(r RS) bool { again = append(again, r); return true })
+			run.Count("iterator_reruns", 1)
+			if len(again) != len(got) || (len(again) > 0 && !reflect.DeepEqual(again, got)) {
+				ww := w()
+				ww["first_pass"], ww["rerun"] = showSet(got), showSet(again)
+				c.bad("iter-rerun/"+how, fmt.Sprintf("pass %d over the same iterator value yields %d items, a fresh iterator yields %d", pass, len(again), len(got)), ww)
+				break
+			}
 		}
 	}
 	for _, p := range probes {
@@ -254,8 +276,8 @@ func main() {
 	run.SetExhaustive(true)
 
 	// one-scope laws, and one prepared scope per subset for the pair laws
-	scopes := make([]ociauth.Scope, nsub)   // built by NewScope
-	parsed := make([]ociauth.Scope, nsub)   // built by ParseScope from non-canonical text
+	scopes := make([]ociauth.Scope, nsub) // built by NewScope
+	parsed := make([]ociauth.Scope, nsub) // built by ParseScope from non-canonical text
 	parsedText := make([]string, nsub)
 	for mask := 0; mask < nsub; mask++ {
 		rng := run.Rand(9, uint64(mask))
